@@ -160,7 +160,19 @@ def model_canon(kind, payload, out):
     return c05.model_canon("generate", payload["problem"], out)
 
 
+_suspect = {"budget": 0}
+
+
 def compare(kind, payload, real, model):
+    why = _compare(kind, payload, real, model)
+    if why:
+        # the implementation differs from the (history-free) model: from now on the failing-input search also asks a fresh interpreter,
+        # because this process may already carry the leaked state in both of its own answers
+        _suspect["budget"] = 25
+    return why
+
+
+def _compare(kind, payload, real, model):
     if real.get("notes"):
         return "; ".join(real["notes"])
     r = {k: v for k, v in real.items() if k != "notes"}
@@ -178,6 +190,9 @@ def nontrivial_key(kind, payload):
 
 
 def oracle(kind, payload):
+    if kind == "history" and not payload.get("fresh") and _suspect["budget"] > 0:
+        _suspect["budget"] -= 1
+        payload = dict(payload, fresh=True)
     real = call_real(lambda p: run_real(kind, p), payload, timeout=600)
     if real.get("notes"):
         return "; ".join(real["notes"])
